@@ -659,6 +659,10 @@ func (f *FS) PowerLossImage(choose func(kind string, n int) int) *FS {
 			vs := dataVariants(n)
 			v := vs[choose("pl-data", len(vs))]
 			n.data = v
+		} else {
+			// clean in the cache is not the same as on disk: after a failed fsync the pages are
+			// clean although they never got there
+			n.data = append([]byte(nil), n.dur...)
 		}
 		n.dur = append([]byte(nil), n.data...)
 		n.dirty = false
